@@ -82,6 +82,7 @@ type Run struct {
 	sets         map[string]map[string]struct{}
 	floors       []floor
 	extra        map[string]any
+	replaysKept  map[string]int // replays kept per violation key (bounded, see Violate)
 }
 
 func NewRun(prop, tier, level string) *Run {
@@ -156,6 +157,16 @@ func (r *Run) Floor(counter string, min int) {
 
 func (r *Run) Violate(key, desc string, replay any) {
 	r.mu.Lock()
+	// the replay of the first few violations of a key is kept (the report shows the first and a handful more); a key
+	// that fires thousands of times (recorded findings in a thorough run) must not keep thousands of event logs
+	if r.replaysKept == nil {
+		r.replaysKept = map[string]int{}
+	}
+	if r.replaysKept[key] >= 4 {
+		replay = nil
+	} else {
+		r.replaysKept[key]++
+	}
 	r.violations = append(r.violations, Violation{key, desc, replay})
 	r.mu.Unlock()
 }
@@ -417,7 +428,17 @@ func (r *Run) MergePrefixed(path, prefix string) error {
 			r.samples = append(r.samples, s)
 		}
 	}
-	r.violations = append(r.violations, d.Violations...)
+	if r.replaysKept == nil {
+		r.replaysKept = map[string]int{}
+	}
+	for _, v := range d.Violations {
+		if r.replaysKept[v.Key] >= 4 {
+			v.Replay = nil
+		} else if v.Replay != nil {
+			r.replaysKept[v.Key]++
+		}
+		r.violations = append(r.violations, v)
+	}
 	r.inconclusive = append(r.inconclusive, d.Inconclusive...)
 	for k, v := range d.Counters {
 		r.counters[prefix+k] += v
